@@ -108,10 +108,10 @@ fn check_id(ctx: &mut Ctx, v: u32) {
     }
 }
 
-pub const ALPHABET: [&str; 12] = ["H", "P", ":", "0", "1", "9", "+", "-", " ", "\u{e9}", "\u{20ac}", "\u{1F600}"];
+pub const ALPHABET: [&str; 15] = ["H", "P", ":", "0", "1", "9", "+", "-", " ", "\u{e9}", "\u{20ac}", "\u{1F600}", "\n", "\t", "\u{a0}"];
 
 pub fn run(ctx: &mut Ctx) {
-    ctx.rule = "ids: every id 0..10^7 in blocks of 10^4 plus u32 borders; strings: every string of <= L symbols over {H,P,:,0,1,9,+,-,space,é,€,😀} (L=6 quick, 7 thorough) plus digit strings around u32::MAX; a case is distinct by construction; non-trivial = string of >= 4 bytes (passes the length guard) or an id".into();
+    ctx.rule = "ids: every id 0..10^7 in blocks of 10^4 plus u32 borders; strings: every string of <= L symbols over {H,P,:,0,1,9,+,-,space,é,€,😀,\\n,\\t,NBSP} (L=6 quick, 7 thorough) plus digit strings around u32::MAX; a case is distinct by construction; non-trivial = string of >= 4 bytes (passes the length guard) or an id".into();
     ctx.assumptions = vec![
         "a '+' sign directly after the 3-byte prefix is don't-care (u32::from_str accepts it, the property is silent)".into(),
         "the 3-byte prefix itself is not inspected (the property only constrains the text after it)".into(),
@@ -157,7 +157,7 @@ pub fn run(ctx: &mut Ctx) {
 
     // ---- Space B: all strings up to L symbols
     let max_len = if ctx.tier.thorough() { 7 } else { 6 };
-    ctx.space("strings/all", &format!("all strings of 0..={max_len} symbols over the 12-symbol alphabet; one case per (length, first two symbols)"));
+    ctx.space("strings/all", &format!("all strings of 0..={max_len} symbols over the 15-symbol alphabet; one case per (length, first two symbols)"));
     for len in 0..=max_len {
         if len < 2 {
             if ctx.take() {
@@ -172,14 +172,14 @@ pub fn run(ctx: &mut Ctx) {
             }
             continue;
         }
-        for a in 0..12 {
-            for b in 0..12 {
+        for a in 0..ALPHABET.len() {
+            for b in 0..ALPHABET.len() {
                 if !ctx.take() {
                     continue;
                 }
                 ctx.state();
                 let rest = len - 2;
-                let total = 12usize.pow(rest as u32);
+                let total = ALPHABET.len().pow(rest as u32);
                 let mut s = String::with_capacity(32);
                 let mut nontriv = 0u64;
                 for mut k in 0..total {
@@ -187,8 +187,8 @@ pub fn run(ctx: &mut Ctx) {
                     s.push_str(ALPHABET[a]);
                     s.push_str(ALPHABET[b]);
                     for _ in 0..rest {
-                        s.push_str(ALPHABET[k % 12]);
-                        k /= 12;
+                        s.push_str(ALPHABET[k % ALPHABET.len()]);
+                        k /= ALPHABET.len();
                     }
                     if s.len() >= 4 {
                         nontriv += 1;
